@@ -12,6 +12,10 @@ for n in names:
     if not os.path.isfile(os.path.join(d, "patch.diff")):
         continue
     prop = n.split("_")[0]
+    # a change made for one property may be caught by another property's check (e.g. the client-side half of delivery):
+    # seeded/<name>/check names it
+    alt = os.path.join(d, "check")
+    check = open(alt).read().strip() if os.path.exists(alt) else prop
     ev_path = os.path.join(d, "eval.json")
     ev = json.load(open(ev_path)) if os.path.exists(ev_path) else {"property": prop}
     patch = os.path.join(d, "patch_head.diff") if os.path.exists(os.path.join(d, "patch_head.diff")) else os.path.join(d, "patch.diff")
@@ -22,8 +26,8 @@ for n in names:
     else:
         try:
             t = time.time()
-            c = subprocess.run([os.path.join(V, "vcheck"), prop, "--tier", "quick"], capture_output=True, text=True, timeout=3600)
-            fin.update(exit=c.returncode, violations=len([l for l in c.stdout.splitlines() if l.startswith("VIOLATION")]),
+            c = subprocess.run([os.path.join(V, "vcheck"), check, "--tier", "quick"], capture_output=True, text=True, timeout=3600)
+            fin.update(check=check, exit=c.returncode, violations=len([l for l in c.stdout.splitlines() if l.startswith("VIOLATION")]),
                        what=[l.strip()[:300] for l in c.stdout.splitlines() if l.strip().startswith("what:")][:3], wall_s=round(time.time() - t, 1))
             if c.returncode == 2:
                 fin["stderr"] = c.stderr[-500:]
